@@ -38,9 +38,10 @@ class AppCli(_Rec, vcommand.VNCDoCLIClient):
         super(_Rec, self).fillRectangle(x, y, w, h, color)
 
     def _captureSave(self, data, fp, *args, **kw):
+        had_screen = self.screen is not None
         r = super()._captureSave(data, fp, *args, **kw)
-        if isinstance(r, defer.Deferred):
-            return r            # nothing was saved: the capture waits for the next update
+        if isinstance(r, defer.Deferred) or not had_screen:
+            return r            # nothing was (or could be) saved: the capture waits for the next update
         im = Image.open(fp).convert("RGB")
         self._t("save:%s:%d:%d:%d" % (fp.encode().hex(), im.size[0], im.size[1], fnv64(im.tobytes())))
         return r
@@ -85,8 +86,21 @@ class Vncdo:
         self.exit_code = None
         self.error = None
         self.factory = None
+        outer = self
+
+        class FakeEndpoint:
+            """stands for HostnameEndpoint / UNIXClientEndpoint: the REAL client.factory_connect runs (its errback glue included)"""
+
+            def __init__(self, reactor_, host, port=None, *a, **k):
+                self.host, self.port = host, port
+
+            def connect(self, factory):
+                self.d = defer.Deferred()
+                outer.connects.append((factory, self.host, self.port, None))
+                outer.conn_deferred = self.d
+                return self.d
         patches = [mock.patch.object(vcommand, "reactor", self.reactor), mock.patch.object(vclient, "reactor", self.reactor),
-                   mock.patch.object(vcommand, "factory_connect", lambda f, h, p, fam: self.connects.append((f, h, p, fam))),
+                   mock.patch.object(vclient, "HostnameEndpoint", FakeEndpoint), mock.patch.object(vclient, "UNIXClientEndpoint", FakeEndpoint),
                    mock.patch.object(vcommand, "VNCDoCLIFactory", AppFactory), mock.patch.object(sys, "argv", argv),
                    mock.patch.object(vcommand, "setup_logging", lambda o: None)]
         self._patches = patches
@@ -170,7 +184,9 @@ class Vncdo:
         return toks(self.trace[n0:])
 
     def connect_failed(self):
-        self.factory.clientConnectionFailed(None, Failure(ConnectionLost()))
+        # the endpoint reports that the connection could not be made: whatever factory_connect attached to it runs
+        from twisted.internet.error import ConnectionRefusedError as CRE
+        self.conn_deferred.errback(Failure(CRE()))
 
     def status(self):
         return self.reactor.exit_status, (None if self.reactor.stopped_at is None else ticks(self.reactor.stopped_at))
